@@ -16,10 +16,12 @@ inductive TPanic where
   | infinite            -- `assert_finite`: "arithmetic operations with the infinity are not allowed!"
   | unlimitedPrecision  -- `assert_limited_precision`: "precision cannot be 0 (unlimited) for this operation!"
   | powNegativeBase     -- `panic_power_negative_base`
+  | logNonpositive      -- `panic_log_nonpositive`: "logarithm is not defined for zero and negative numbers!"
   deriving DecidableEq, Repr
 
 def TPanic.name : TPanic → String
   | .infinite => "Infinite" | .unlimitedPrecision => "UnlimitedPrecision" | .powNegativeBase => "PowNegativeBase"
+  | .logNonpositive => "LogInvalid"
 
 /-- a `Repr<B>` -/
 structure FIn where
@@ -52,11 +54,14 @@ def expEntry (minusOne : Bool) (x : FIn) (p : Nat) : Entry :=
   else if x.isZero then (if minusOne then .exactConst 0 else .exactConst 1)
   else .compute
 
-/-- `Context::ln_internal(x, one_plus)` up to the first `let` of the algorithm -/
-def lnEntry (onePlus : Bool) (x : FIn) (p : Nat) : Entry :=
+/-- `Context::ln_internal(x, one_plus)` up to the first `let` of the algorithm (base `B`: the domain test
+    of `ln_1p` compares the operand with `-1`) -/
+def lnEntry (B : Nat) (onePlus : Bool) (x : FIn) (p : Nat) : Entry :=
   if x.inf then .panic .infinite
   else if p = 0 then .panic .unlimitedPrecision
   else if (onePlus && x.isZero) || (!onePlus && x.isOne) then .exactConst 0
+  else if (if onePlus then decide (x.sig < 0 ∧ fval B x.sig x.exp ≤ -1) else decide (x.sig ≤ 0)) then
+    .panic .logNonpositive                          -- log x needs x > 0, log (1 + x) needs x > -1
   else .compute
 
 /-- `Context::powi(base, exp)` up to `let work_context` -/
@@ -69,9 +74,9 @@ def powiEntry (x : FIn) (k : Int) (p : Nat) : Entry :=
   else if k = 1 then .roundArg
   else .compute
 
-/-- `Context::powf(base, exp)` up to `let guard_digits` (only the base is asserted finite) -/
+/-- `Context::powf(base, exp)` up to `let guard_digits` (`assert_finite_operands(base, exp)`) -/
 def powfEntry (x y : FIn) (p : Nat) : Entry :=
-  if x.inf then .panic .infinite
+  if x.inf || y.inf then .panic .infinite
   else if p = 0 then .panic .unlimitedPrecision
   else if y.isZero then .exactConst 1
   else if y.isOne then .roundArg
